@@ -32,7 +32,8 @@ RULE = ('edit: for each registered non-GSS kex method, Hypothesis draws a '
         'kex-method message), a field (cookie, each of the 10 name-lists, '
         'first_kex_follows, reserved, each length-prefixed or uint32 field of '
         'the kex message) and a mutation (delete/swap/insert/truncate name; '
-        'bit flip, zero, one, truncate, extend, +-1). Non-trivial = the edit '
+        'bit flip, zero, one, truncate, extend, +-1; for the version line '
+        'also appended SP/TAB/CR). Non-trivial = the edit '
         'was applied to a handshake that completes when unedited (family '
         'control). prefs: random sub-lists/permutations of the algorithm '
         'registries on both sides. distinct = (kex, message, field, '
